@@ -342,6 +342,26 @@ fn indicators_block(thorough: bool) -> (VioSink, Tally) {
 				}
 			}
 		}
+		// two MA slots at once: an overshooting kind (its outputs change sign after an impulse) in one slot, the
+		// moving median (which refuses NaN) in another - every ordered pair of slots
+		{
+			let ma_keys: Vec<&String> = keys.iter().filter(|(_, v)| v.is_object()).map(|(k, _)| k).collect();
+			for ka in &ma_keys {
+				for kb in &ma_keys {
+					if ka == kb {
+						continue;
+					}
+					for kind in ["linreg", "hma", "dema", "tema"] {
+						for n in [6, 7, 8] {
+							let mut c = c0.boxed_clone();
+							if c.set(ka, format!("{kind}-{n}")).is_ok() && c.set(kb, "smm-3".to_string()).is_ok() {
+								cands.push((c, format!("pair:{ka}={kind}-{n},{kb}=smm-3")));
+							}
+						}
+					}
+				}
+			}
+		}
 		for (c, what) in &cands {
 			Tally::add(&t.cases, 1);
 			let valid = match catch(|| c.validate()) {
@@ -415,6 +435,46 @@ fn indicators_block(thorough: bool) -> (VioSink, Tally) {
 							off += if i % 2 == 0 { up } else { down };
 						}
 						ss.push(z);
+					}
+					// two events on a steady stream (the high pushed up by a, the low pushed down by b; for one candle
+					// or for good; both orders; every gap 0..=8): exact cancellations between two averaged series
+					if what == "default" || what.starts_with("pair:") {
+						let b0 = ks[1];
+						for kind in 0..4 {
+							for a in 1..=5 {
+								for b in 1..=5 {
+									for gap in 0..=8usize {
+										let hi = Candle { high: b0.high + a as ValueType, ..b0 };
+										let lo = Candle { low: b0.low - b as ValueType, ..b0 };
+										let both = Candle { high: b0.high + a as ValueType, low: b0.low - b as ValueType, ..b0 };
+										let mut s = vec![b0, b0, b0];
+										match kind {
+											0 => {
+												s.push(hi);
+												s.extend(vec![b0; gap]);
+												s.push(lo);
+												s.extend(vec![b0; 12]);
+											}
+											1 => {
+												s.push(lo);
+												s.extend(vec![b0; gap]);
+												s.push(hi);
+												s.extend(vec![b0; 12]);
+											}
+											2 => {
+												s.extend(vec![hi; gap + 1]);
+												s.extend(vec![both; 12]);
+											}
+											_ => {
+												s.extend(vec![lo; gap + 1]);
+												s.extend(vec![both; 12]);
+											}
+										}
+										ss.push(s);
+									}
+								}
+							}
+						}
 					}
 					drop(inst);
 					for s in &ss {
